@@ -225,6 +225,64 @@ def gen_barrier_tree(root, n):
     return specs
 
 
+UNTIL2_SH = """#!/bin/sh
+# usage: until2.sh <token> <seconds>: tell that the command has started, wait for the file `go`, sleep, print the token
+: > "ready.$1"
+while [ ! -e go ]; do sleep 0.01; done
+sleep "$2"
+echo "$1"
+"""
+
+#: checks whose file names contain several dots and share what precedes the first one:
+#: (stem, token printed and expected by the first command, seconds slept after the barrier, second command)
+DOTTED = [
+    ("stage.1", "stage-one-prints-a-long-line-AAAAAAAAAAAAAAAA", "0", True),
+    ("stage.2", "s2", "0.2", True),
+    ("stage.3.x", "stage-three-x", "0.1", False),
+    ("run.a", "run-a-output-BBBBBBBB", "0", False),
+    ("run.b", "rb", "0.15", False),
+    ("a.b.c", "abc", "0.05", False),
+    ("solo", "solo-output", "0", False),
+]
+
+
+def gen_dotted_tree(root):
+    """checks named `stage.1.check`, `stage.2.check`, ...: every check validates the output of its own command
+    (`expected_output`, a different text for each) and the commands all overlap in time (they wait for the same
+    file). Each check must only use files named from its own full stem (<stem>-Exec-k.out, <stem>.checklog,
+    TEST-<stem>.xml): its verdict must not depend on what runs at the same time."""
+    os.makedirs(os.path.join(root, "d"))
+    with open(os.path.join(root, "d", "until2.sh"), "w") as f:
+        f.write(UNTIL2_SH)
+    specs = []
+    for stem, tok, delay, second in DOTTED:
+        cmd = "sh until2.sh %s %s" % (tok, delay)
+        text = '@Command "%s"{expected_output : "%s"};\n' % (cmd, tok)
+        cmds = [{"ranOk": True, "outputOk": True, "shallFail": False, "cmd": cmd}]
+        if second:
+            cmd2 = "sh until2.sh %s-second 0" % tok
+            text += '@Command "%s";\n' % cmd2
+            cmds.append({"ranOk": True, "outputOk": None, "shallFail": False, "cmd": cmd2})
+        with open(os.path.join(root, "d", stem + ".check"), "w") as f:
+            f.write(text)
+        specs.append({"name": stem, "dir": "d", "req": True, "malformed": False, "files": {}, "cmps": [], "cmds": cmds})
+    return specs
+
+
+def produced_files(root):
+    d = os.path.join(root, "d")
+    return sorted(f for f in os.listdir(d) if f.endswith(".checklog") or (f.startswith("TEST-") and f.endswith(".xml"))
+                  or re.search(r"-Exec-\d+\.out$", f))
+
+
+def expected_files(specs):
+    out = []
+    for s in specs:
+        out += [s["name"] + ".checklog", "TEST-" + s["name"] + ".xml"]
+        out += ["%s-Exec-%d.out" % (s["name"], k + 1) for k in range(len(s["cmds"]))]
+    return sorted(out)
+
+
 def release_when_ready(root, n, limit=120.0):
     """creates d/go once n commands are waiting (or after `limit` seconds); returns the thread"""
     import threading
@@ -387,14 +445,16 @@ def run(ck):
     samples = []
     ntrees = 2 if q else 6
     jobs_list = [1, 5, 16] if q else list(range(1, 17))
-    for tr in range(ntrees + 1):
-        barrier = tr == ntrees      # last: the tree whose 16 tasks end at the same moment
+    for tr in range(ntrees + 2):
+        dotted = tr == ntrees + 1   # last: multi-dot file names sharing a prefix, output checks, overlapping commands
+        barrier = tr == ntrees      # the tree whose 16 tasks end at the same moment
         nchecks = rng.choice([7, 9]) if q else rng.choice([8, 12, 20, 40])
         if tr == ntrees - 1:
             nchecks = max(nchecks, 12 if q else 24)
         root = ck.path("tree%d" % tr)
-        specs = gen_barrier_tree(root, 16) if barrier else gen_tree(rng, root, nchecks, big=not q)
-        discard = barrier or (tr % 2 == 0)      # every other tree is run with --discard-commands-failure=false
+        specs = (gen_dotted_tree(root) if dotted else gen_barrier_tree(root, 16) if barrier
+                 else gen_tree(rng, root, nchecks, big=not q))
+        discard = barrier or dotted or (tr % 2 == 0)    # every other tree is run with --discard-commands-failure=false
         extra = [] if discard else ["--discard-commands-failure=false"]
         # model verdicts
         vlines = []
@@ -421,17 +481,44 @@ def run(ck):
         jl = jobs_list if (not q or tr == 0) else [1, 16]
         if barrier:
             jl, stress = [16] * (4 if q else 15), []
+        if dotted:
+            # -j 1 (reference), several jobs, then every check alone (given on the command line)
+            jl, stress = ([1, 16, 2] if q else [1, 2, 3, 4, 8, 16, 16]), []
+            jl = jl + [("alone", s) for s in specs]
+        verdict_ref = {}
         for j in jl + stress:
+            alone = None
+            if isinstance(j, tuple):
+                alone, j = j[1], 1
             yseed = rng.randrange(1, 2 ** 31) if j > 1 else 0
-            th = release_when_ready(root, min(j, len(specs))) if barrier else None
-            rc, text, err = run_once(binary, root, j, yseed, extra)
+            if dotted:
+                for f in produced_files(root):
+                    os.remove(os.path.join(root, "d", f))
+            th = release_when_ready(root, 1 if alone else min(j, len(specs))) if (barrier or dotted) else None
+            rc, text, err = run_once(binary, root, j, yseed,
+                                     list(extra) + (["d/%s.check" % alone["name"]] if alone else []))
             if th is not None:
                 th.join()
+            if alone:
+                # one check given on the command line: its verdict must be the one it gets among the others
+                stats["runs"] += 1
+                bl, _ = parse_log(text)
+                wf, v = block_verdict(bl[0][1]) if len(bl) == 1 else (False, None)
+                n0 = test_name(alone)
+                if not wf or v != verdict_ref.get(n0, v) or (rc == 1) != (v is False):
+                    report("tfel-check/src/TestLauncher.cxx:TestLauncher:verdict-depends-on-the-other-checks", True,
+                           "%s run alone: exit status %s, verdict %s; verdict %s when run with the other checks (-j 1)" %
+                           (n0, rc, v, verdict_ref.get(n0)),
+                           {"tree": "seed %d: d/%s" % (ck.seed, ", d/".join(x["name"] + ".check" for x in specs)),
+                            "checks": [{"name": test_name(x), "commands": [c["cmd"] for c in x["cmds"]]} for x in specs],
+                            "alone": n0, "exit_status": rc, "log": text[-1500:]})
+                continue
             stats["runs"] += 1
             stats["jobs"][j] = stats["jobs"].get(j, 0) + 1
             stats["status_hist"][rc] = stats["status_hist"].get(rc, 0) + 1
             blocks, tail = parse_log(text)
-            rep = {"tree": "seed %d, tree %d%s: %d checks%s" % (ck.seed, tr, " (all the commands wait for the same file and end together)" if barrier else "",
+            rep = {"tree": "seed %d, tree %d%s: %d checks%s" % (ck.seed, tr, " (all the commands wait for the same file and end together)" if barrier else
+                                                          " (d/stage.1.check, d/stage.2.check, ...: several dots, shared prefixes, expected_output, overlapping commands)" if dotted else "",
                                                           len(specs), "" if discard else ", --discard-commands-failure=false"),
                    "jobs": j, "yield_seed": yseed, "exit_status": rc, "stderr": err[-600:],
                    "checks": [{"name": test_name(s), "commands": [c["cmd"] for c in s["cmds"]],
@@ -489,6 +576,24 @@ def run(ck):
                 report(SITE + ":exit-status", True,
                        "tfel-check -j %d exits with %d but %s check failed according to its own log" %
                        (j, rc, "a" if any_failed else "no"), rep)
+            if dotted and rc in (0, 1):
+                got, want_files = produced_files(root), expected_files(specs)
+                if got != want_files:
+                    ok = False
+                    report("tfel-check/src/TestLauncher.cxx:TestLauncher:private-files", False,
+                           "the checks do not each write their own files (-j %d): missing %s, unexpected %s" %
+                           (j, sorted(set(want_files) - set(got))[:4], sorted(set(got) - set(want_files))[:4]),
+                           dict(rep, produced=got, expected=want_files))
+            if not verdict_ref:
+                verdict_ref.update(observed_verdict)
+            else:
+                for n, v in observed_verdict.items():
+                    if n in verdict_ref and verdict_ref[n] != v:
+                        report("tfel-check/src/TestLauncher.cxx:TestLauncher:verdict-depends-on-the-other-checks", True,
+                               "the verdict of %s depends on the number of jobs: %s with -j %s, %s with -j %d" %
+                               (n, verdict_ref[n], jl[0], v, j),
+                               dict(rep, block=next((b for m, b in blocks if m == n), [])[:10]))
+                        break
             if reference is None:
                 reference = {"rc": rc, "blocks": {n: b for n, b in blocks}}
             elif ok:
